@@ -66,6 +66,22 @@ Theorem c08_spec_refuses_unknown : forall m etype prefs req bindings descr out,
 Proof. exact spec_refuses_unknown. Qed.
 Print Assumptions c08_spec_refuses_unknown.
 
+(* round 7: SingleSignOnService / ArtifactResolutionService / NameIDMappingService: only the Location of a
+   published endpoint is a destination, a stray ResponseLocation never is (model; any outcome passing the spec) *)
+Theorem c08_pick_location_only : forall m etype prefs svc bindings descr entity_id b d,
+  location_only svc = true ->
+  pick_binding m etype prefs svc bindings descr None entity_id = Dest b (Some d) ->
+  exists ep, publishes m entity_id (service_role svc etype descr) svc ep /\ ep_binding ep = b /\ ep_location ep = d.
+Proof. exact pick_location_only. Qed.
+Print Assumptions c08_pick_location_only.
+
+Theorem c08_spec_location_only : forall m etype prefs svc bindings descr entity_id b d,
+  location_only svc = true ->
+  spec m (OpPick etype prefs svc bindings descr entity_id) (Dest b (Some d)) ->
+  exists ep, publishes m entity_id (service_role svc etype descr) svc ep /\ ep_binding ep = b /\ ep_location ep = d.
+Proof. exact spec_location_only. Qed.
+Print Assumptions c08_spec_location_only.
+
 (* the binding used is one the caller allowed, else the request's ProtocolBinding, else a configured preference *)
 Theorem c08_binding_origin : forall m etype prefs req bindings descr b od,
   response_args m etype prefs req bindings descr = Dest b od ->
@@ -222,6 +238,28 @@ Print Assumptions c08_slo_first_source.
 Theorem c08_sequences : forall st steps, spec_seq st steps (run_seq st steps).
 Proof. intros st steps. exact (sequences_sound steps st). Qed.
 Print Assumptions c08_sequences.
+
+(* round 7: ... and against the SERVED metadata: for an operation aimed at a named entity, against the one source
+   that serves that entityID (the first that has it), so a same-entityID descriptor shadowed in a later source never
+   supplies a destination *)
+Theorem c08_served_metadata : forall m o, spec_served m o (run_op m o).
+Proof. exact served_sound. Qed.
+Print Assumptions c08_served_metadata.
+
+Theorem c08_sequences_served : forall st steps, served_seq st steps (run_seq st steps).
+Proof. intros st steps. exact (sequences_served steps st). Qed.
+Print Assumptions c08_sequences_served.
+
+Theorem c08_served_seq_reflect : forall st steps obs, served_seq_b st steps obs = true <-> served_seq st steps obs.
+Proof. intros st steps obs. exact (served_seq_b_iff steps st obs). Qed.
+Print Assumptions c08_served_seq_reflect.
+
+Theorem c08_shadowed_role_refused : forall m s etype prefs req bindings descr,
+  first_with (requester req) m = Some s -> rq_class req = MAuthn -> bindings <> [B_SOAP] ->
+  (forall ep, ~ publishes [s] (requester req) R_SP S_ACS ep) ->
+  no_destination (response_args m etype prefs req bindings descr).
+Proof. exact shadowed_role_refused. Qed.
+Print Assumptions c08_shadowed_role_refused.
 
 Theorem c08_spec_seq_reflect : forall st steps obs, spec_seq_b st steps obs = true <-> spec_seq st steps obs.
 Proof. intros st steps obs. exact (spec_seq_b_iff steps st obs). Qed.
